@@ -193,7 +193,10 @@ Section Chunker.
       end
     end.
 
-  (* all levels: [old] = the old levels from level l upwards *)
+  (* all levels: [old] = the old levels from level l upwards.  The old entries of
+     level l+1 are the summaries of the old chunks of level l (what a well-formed
+     tree stores there: chunker.handleChunkBoundary appended exactly those); the
+     chunks of level l+1 — [hd (tl old)] — say how these entries were grouped. *)
   Fixpoint apply_levels (fuel l : nat) (old : list (list chunk)) (cops : list (list op))
     : list (list chunk) :=
     let '(cs, ps) := rechunk l true [] cops in
@@ -204,7 +207,8 @@ Section Chunker.
       | O => [cs]
       | S f =>
         let old_up := hd [] (tl old) in
-        cs :: apply_levels f (S l) (tl old) (split_ops old_up (attach (concat old_up) ps))
+        let entries := map (summ l) (map old_of cops) in
+        cs :: apply_levels f (S l) (tl old) (split_ops old_up (attach entries ps))
       end
     end.
 
@@ -255,6 +259,10 @@ Section Chunker.
       | _ => let '(e1, e2) := span_le (last_key c) es in merge_ops e1 c :: cops_of_edits cs' e2
       end
     end.
+
+  (* the dictionary update on sorted item lists (the specification side of the
+     leaf edits): delete / replace / insert by key, everything else kept *)
+  Definition apply_edits (es : list edit) (xs : list item) : list item := new_of (merge_ops es xs).
 
   Definition apply_mutations (old : list (list chunk)) (es : list edit) : list (list chunk) :=
     let cops := cops_of_edits (hd [] old) es in
